@@ -936,6 +936,9 @@ class Evaluator:
         coll = self.ev(src, env)
         values = self.iter_values(coll, what, True)
         result = rv.TRUE
+        # variables of the current scope that have the names of the loop variables get their values back afterwards
+        # (also when the loop is left by an error)
+        shadowed = {n: env.vars[n] for n in names if n in env.vars}
         try:
             for v in values:
                 self.tick()
@@ -957,11 +960,13 @@ class Evaluator:
                     break
                 if st == "break2":
                     raise self.pending_break
-        finally:
-            pass
+        except BaseException:
+            env.vars.update(shadowed)
+            raise
         if values and kind_of(coll) != "str":
             for n in names:
                 env.vars.pop(n, None)
+        env.vars.update(shadowed)
         return result
 
     def ev_while(self, t, env):
